@@ -6,6 +6,9 @@ def run(tier, seed):
         "C04", ["C04.ok"], tier, seed,
         nontrivial=lambda c, e, o: c["has_mw"] and any(a[0] == "mw" for acts, _ in o for a in acts),
         rule="non-trivial = distinct schedule with a middleware chain that was actually consulted")
+    chain_composition_cases(res, random.Random(seed), tier)
+    res.rule += (" | plus the real MiddlewareChain over scripted components (admit / refuse with a response / refuse without one / raise), "
+                 "every chain of up to 3 (thorough: 4) components, Gemini and Titan requests through the real protocol")
     import tlsextra
     tmp = scratch_dir("nv-c04-")
     try:
@@ -14,3 +17,69 @@ def run(tier, seed):
     finally:
         shutil.rmtree(tmp, ignore_errors=True)
     return res
+
+
+def chain_composition_cases(res, rng, tier):
+    """The real MiddlewareChain in front of the real protocol.  Each component is scripted: it admits, refuses with its own
+    response line, refuses without one ((False, None): the protocol answers for it), or raises.  A request is admitted exactly when
+    every component admits; otherwise no handler runs and the client receives the FIRST refusing component's response (a
+    non-success status when that component gave none or raised)."""
+    import asyncio, itertools
+    import serverdrv as sd
+    from nauyaca.server.middleware import MiddlewareChain
+    from nauyaca.server.protocol import GeminiServerProtocol
+    from nauyaca.protocol.response import GeminiResponse
+    KINDS = ["admit", "refuse53", "refuse44", "refuse-silent", "raise"]
+    class Comp:
+        def __init__(self, kind, log): self.kind, self.log = kind, log
+        async def process_request(self, url, ip, fp=None):
+            self.log.append(self.kind)
+            await asyncio.sleep(0)
+            if self.kind == "admit": return True, None
+            if self.kind == "refuse53": return False, "53 Access denied\r\n"
+            if self.kind == "refuse44": return False, "44 Rate limit exceeded. Retry after 7 seconds\r\n"
+            if self.kind == "refuse-silent": return False, None
+            raise RuntimeError("component failure")
+    class Up:
+        def __init__(self, calls): self.calls = calls
+        async def handle_upload(self, request):
+            self.calls.append("upload"); return GeminiResponse(20, "text/gemini", "stored")
+    chains = [c for n in range(1, (4 if tier == "quick" else 5)) for c in itertools.product(KINDS, repeat=n)]
+    if tier == "quick":
+        chains = [c for c in chains if len(c) <= 2] + rng.sample([c for c in chains if len(c) == 3], 40)
+    async def one(chain, line):
+        consulted, calls, acts = [], [], []
+        def handler(req): calls.append("handler"); return GeminiResponse(20, "text/plain", "content")
+        p = GeminiServerProtocol(handler, MiddlewareChain([Comp(k, consulted) for k in chain]), Up(calls))
+        t = sd.FakeTransport(acts, ("192.0.2.1", 5), None)
+        p.connection_made(t)
+        p.data_received(line)
+        for i in range(400):
+            if t.closed: break
+            await asyncio.sleep(0 if i < 40 else 0.002)
+        if p.timeout_handle: p.timeout_handle.cancel()
+        wire = b"".join(a[1] for a in acts if a[0] == "w")
+        return consulted, calls, wire, t.closed
+    async def go():
+        out = []
+        for chain in chains:
+            for line in (b"gemini://h.example/private/x\r\n", b"titan://h.example/up.gmi;size=5;mime=text/gemini\r\nhello"):
+                out.append((chain, line, await one(chain, line)))
+        return out
+    for chain, line, (consulted, calls, wire, closed) in asyncio.run(go()):
+        res.evaluations += 1; res.count("chain-composition:%d" % len(chain)); res.nontriv(("chain-composition", chain, line[:5]))
+        first = next((k for k in chain if k != "admit"), None)
+        head = wire.split(b"\r\n")[0]
+        if first is None:
+            ok = calls in (["handler"], ["upload"]) and head.startswith(b"20 ")
+        else:
+            ok = calls == [] and closed and len(head) >= 3 and head[:1] != b"2" and head[:2].isdigit()
+            if first == "refuse53": ok = ok and wire == b"53 Access denied\r\n"
+            if first == "refuse44": ok = ok and wire == b"44 Rate limit exceeded. Retry after 7 seconds\r\n"
+            # components behind the first refusal decide nothing
+            ok = ok and consulted == list(chain[:chain.index(first) + 1])
+        if not ok:
+            res.violations.append({"clause": "a request is admitted exactly when every component of the chain admits; the first refusing component's response is what the client receives; no handler runs otherwise",
+                                   "signature": "C04:chain-composition",
+                                   "case": {"components": list(chain), "request": line.decode("latin-1")},
+                                   "trace": {"components_consulted": consulted, "handlers_invoked": calls, "client_received": wire[:80].decode("latin-1"), "closed": closed}})
